@@ -144,7 +144,7 @@ Section AnyArithmetic.
   Theorem c15_edits_invalidate : forall st,
     (forall cs, same_shape R st cs = true -> pdf_ready R (set_state R cs st) = false /\ chains R (set_state R cs st) = cs) /\
     (forall cs, same_shape R st cs = false -> set_state R cs st = st) /\
-    (forall f, pdf_ready R (set_state_fn R f st) = false /\ chains R (set_state_fn R f st) = map f (chains R st)) /\
+    (forall f, pdf_ready R (set_state_fn R f st) = false /\ chains R (set_state_fn R f st) = mapi R f 0 (chains R st)) /\
     pdf_ready R (clear_pdf R st) = false /\
     (forall vs, length vs = length (chains R st) -> pdf_ready R (set_pdf_values R vs st) = true /\ pdfv R (set_pdf_values R vs st) = vs) /\
     pdf_ready R (clear_hist R st) = pdf_ready R st /\ hist R (clear_hist R st) = [] /\ pdfh R (clear_hist R st) = [] /\ acc R (clear_hist R st) = 0.
@@ -223,7 +223,7 @@ Example c15_example_stale_cache_breaks_books :
   let st' := fst (fst (ex_run true ex_s 0 1 stale 0)) in
   pdfh Q st' <> map ex_pdf (hist Q st') /\
   (* whereas after the faithful edit (cache invalid) the books are right *)
-  (let st2 := fst (fst (ex_run true ex_s 0 1 (set_state_fn Q (fun _ => [3%Q]) (fst (fst (ex_run true ex_s 0 1 ex_st0 0)))) 0)) in
+  (let st2 := fst (fst (ex_run true ex_s 0 1 (set_state_fn Q (fun _ _ => [3%Q]) (fst (fst (ex_run true ex_s 0 1 ex_st0 0)))) 0)) in
    pdfh Q st2 = map ex_pdf (hist Q st2) /\ length (hist Q st2) = 6).
 Proof. vm_compute. split; [discriminate|split; reflexivity]. Qed.
 
